@@ -598,26 +598,42 @@ std::string CoreOps(const std::vector<Sx>& a) {
       if (!st) return "st=" + std::to_string(Code(st));
       std::string dump; Dump(dump, h->v);
       return "st=0 val=" + dump + " consumed=" + std::to_string(des.reader().index);
-    } else if (op == "fenc") {
+    } else if (op == "fenc" || op == "fencp" || op == "fencu") {
+      // fenc: Serializer<IWriter>; fencp / fencu: the pointer and unique_ptr specialisations over the same writer
       auto h = std::make_unique<Holder<T>>();
       Build(h->v, a.at(4));
+      auto arm = [&](IWriter& w) {
+        w.want_log = true;
+        if (a.at(2).a != "-") { w.fault.k = ParseInt<long>(a.at(2).a); w.fault.code = ParseInt<int>(a.at(3).a); }
+      };
+      auto show = [&](int st, IWriter& w) {
+        return "st=" + std::to_string(st) + " calls=" + std::to_string(w.calls) + " log=" + (w.log.empty() ? "-" : w.log);
+      };
+      if (op == "fencp") { IWriter w; arm(w); nop::Serializer<IWriter*> ser{&w}; auto st = ser.Write(h->v); return show(Code(st), w); }
+      if (op == "fencu") { nop::Serializer<std::unique_ptr<IWriter>> ser{std::make_unique<IWriter>()}; arm(ser.writer()); auto st = ser.Write(h->v); return show(Code(st), ser.writer()); }
       nop::Serializer<IWriter> ser;
-      ser.writer().want_log = true;
-      if (a.at(2).a != "-") { ser.writer().fault.k = ParseInt<long>(a.at(2).a); ser.writer().fault.code = ParseInt<int>(a.at(3).a); }
+      arm(ser.writer());
       auto st = ser.Write(h->v);
-      return "st=" + std::to_string(Code(st)) + " calls=" + std::to_string(ser.writer().calls) +
-             " log=" + (ser.writer().log.empty() ? "-" : ser.writer().log);
-    } else if (op == "fdec") {
+      return show(Code(st), ser.writer());
+    } else if (op == "fdec" || op == "fdecp" || op == "fdecu") {
       HeapBytes in(UnHex(a.at(4).a));
-      nop::Deserializer<IReader> des;
-      des.reader().data = in.p; des.reader().size = in.n; des.reader().handles = ParseHandles(a.at(5).a);
-      des.reader().want_log = true;
-      if (a.at(2).a != "-") { des.reader().fault.k = ParseInt<long>(a.at(2).a); des.reader().fault.code = ParseInt<int>(a.at(3).a); }
+      auto arm = [&](IReader& r) {
+        r.data = in.p; r.size = in.n; r.handles = ParseHandles(a.at(5).a);
+        r.want_log = true;
+        if (a.at(2).a != "-") { r.fault.k = ParseInt<long>(a.at(2).a); r.fault.code = ParseInt<int>(a.at(3).a); }
+      };
       auto h = std::make_unique<Holder<T>>();
+      auto show = [&](int st, IReader& rd) {
+        std::string r = "st=" + std::to_string(st);
+        if (!st) { std::string dump; Dump(dump, h->v); r += " val=" + dump; }
+        return r + " calls=" + std::to_string(rd.calls) + " log=" + (rd.log.empty() ? "-" : rd.log);
+      };
+      if (op == "fdecp") { IReader rd; arm(rd); nop::Deserializer<IReader*> des{&rd}; auto st = des.Read(&h->v); return show(Code(st), rd); }
+      if (op == "fdecu") { nop::Deserializer<std::unique_ptr<IReader>> des{std::make_unique<IReader>()}; arm(des.reader()); auto st = des.Read(&h->v); return show(Code(st), des.reader()); }
+      nop::Deserializer<IReader> des;
+      arm(des.reader());
       auto st = des.Read(&h->v);
-      std::string r = "st=" + std::to_string(Code(st));
-      if (st) { std::string dump; Dump(dump, h->v); r += " val=" + dump; }
-      return r + " calls=" + std::to_string(des.reader().calls) + " log=" + (des.reader().log.empty() ? "-" : des.reader().log);
+      return show(Code(st), des.reader());
     }
     return "HARNESS-ERROR unknown op " + op;
   } catch (const BadValue& e) {
@@ -753,6 +769,15 @@ template <typename T> struct FdOps<T, true> {
   }
 };
 
+// a read-only stream buffer over a byte block that cannot seek (the default seekoff/seekpos fail)
+struct NsBuf : std::streambuf {
+  NsBuf(const char* p, std::size_t n) { char* b = const_cast<char*>(p); setg(b, b, b + n); }
+  std::size_t consumed() const { return static_cast<std::size_t>(gptr() - eback()); }
+};
+struct NsStream : std::istream {
+  explicit NsStream(NsBuf* b) : std::istream(b) {}
+};
+
 template <typename T>
 std::string DecBuf(const std::string& kind, const std::vector<std::uint8_t>& bytes, std::size_t limit) {
   HeapBytes in(bytes);
@@ -785,6 +810,13 @@ std::string DecBuf(const std::string& kind, const std::vector<std::uint8_t>& byt
       code = Code(d.Read(&h->v));
       if (!code) { auto pos = r.stream().tellg(); consumed = pos < 0 ? in.n : static_cast<std::size_t>(pos); }
     }
+  }
+  else if (kind == "nsstream") {
+    // a forward-only stream (pipe- or socket-like): its buffer has no seekoff/seekpos, so tellg/seekg fail
+    NsBuf nb(reinterpret_cast<const char*>(in.p), in.n);
+    nop::Deserializer<nop::StreamReader<NsStream>> d{&nb};
+    code = Code(d.Read(&h->v));
+    consumed = nb.consumed();
   }
   else if (kind == "fstream" || kind == "bfstream") {
     // a file-backed stream: seeking past the end of a file does not fail, unlike a string stream
